@@ -39,15 +39,15 @@ cdef class SpectraCoefficient(Coefficient):
 
     cpdef Coefficient copy(self):
         """Return a copy of the :obj:`.Coefficient`."""
-        return SpectraCoefficient(self.coeff_t, self.coeff_w, self.w)
+        return SpectraCoefficient(self.coeff_w, self.coeff_t, self.w)
 
     def replace_arguments(self, _args=None, *, w=None, **kwargs):
         if _args:
             kwargs.update(_args)
         if kwargs:
             return SpectraCoefficient(
-                self.coeff_w.replace(**kwargs),
-                self.coeff_t.replace(**kwargs) if self.coeff_t else None,
+                self.coeff_w.replace_arguments(**kwargs),
+                self.coeff_t.replace_arguments(**kwargs) if self.coeff_t else None,
                 kwargs.get('w', w or self.w)
               )
         if w is not None:
